@@ -427,7 +427,12 @@ func runC12(c *Ctx) {
 			}
 			return true
 		})
-		if c.Check(K(f.Name, "collects waiters"), f.Pos(), len(appends) >= 1 && len(appends) == nrecv && waiting != nil, "requests with a reply channel are collected wherever a request is received (first request and batched ones)", "found "+itoa(len(appends))+" appends for "+itoa(nrecv)+" receives") {
+		// (an append inside a helper read in place stands once per call of the helper)
+		nstand := 0
+		for _, a := range appends {
+			nstand += len(cf.Clones(a))
+		}
+		if c.Check(K(f.Name, "collects waiters"), f.Pos(), len(appends) >= 1 && nstand == nrecv && waiting != nil, "requests with a reply channel are collected wherever a request is received (first request and batched ones)", "found "+itoa(nstand)+" appends for "+itoa(nrecv)+" receives") {
 			var ans *ast.RangeStmt
 			f.Walk(func(n ast.Node) bool {
 				if rg, ok := n.(*ast.RangeStmt); ok && eng.IsObj(info, rg.X, waiting) {
